@@ -192,7 +192,7 @@ Definition lex_dbref (ln : Z) (line : text) : lexitem * list diag :=
 Definition lex_dbref1 (ln : Z) (line : text) : lexitem * list diag :=
   let '(_, e0) := f_text ln line 7 11 in
   let '(chain, e1) := f_text ln line 12 13 in
-  let '(p, e2) := pos4 ln line 14 18 18 21 24 24 in
+  let '(p, e2) := pos4 ln line 14 18 18 20 24 24 in
   let '(db, e3) := f_text ln line 26 32 in
   let '(id, e4) := f_text ln line 47 67 in
   (LDbref1 chain p db id, (e0 ++ e1 ++ e2 ++ e3 ++ e4)%list).
